@@ -131,6 +131,8 @@ struct Machine<'p, 'a> {
     fuel: u64,
     trace: Vec<&'static str>,
     dry: u32,
+    /// function-local statics initialised so far: declarator node -> slot of the object in the outermost frame
+    statics: HashMap<usize, usize>,
 }
 
 fn stuck<T>(s: impl Into<String>) -> R<T> {
@@ -611,7 +613,7 @@ impl<'a> CProgram<'a> {
     /// Evaluate function `fi` (index into `funcs`). Reference parameters (`T&`) are bound to fresh objects holding the
     /// given argument; the second result holds the final value of every out / reference parameter (None for plain inputs).
     pub fn run_function(&self, fi: usize, args: &[Value], fuel: u64) -> R<(Outcome, Vec<Option<Value>>)> {
-        let mut m = Machine { p: self, globals: vec![None; self.globals.len()], frames: vec![Frame::default()], fuel, trace: Vec::new(), dry: 0 };
+        let mut m = Machine { p: self, globals: vec![None; self.globals.len()], frames: vec![Frame::default()], fuel, trace: Vec::new(), dry: 0, statics: HashMap::new() };
         for g in &self.static_globals {
             m.init_global(*g)?;
         }
@@ -1098,6 +1100,7 @@ impl<'p, 'a> Machine<'p, 'a> {
         }
         let saved_globals = self.globals.clone();
         let saved_frames = self.frames.clone();
+        let saved_statics = self.statics.clone();
         let saved_fuel = self.fuel;
         let saved_trace = self.trace.len();
         self.dry += 1;
@@ -1105,6 +1108,7 @@ impl<'p, 'a> Machine<'p, 'a> {
         self.dry -= 1;
         self.globals = saved_globals;
         self.frames = saved_frames;
+        self.statics = saved_statics;
         self.fuel = saved_fuel;
         self.trace.truncate(saved_trace);
         r.ok().map(|x| x.1)
@@ -1763,14 +1767,38 @@ impl<'p, 'a> Machine<'p, 'a> {
 
     fn vardef(&mut self, v: &ast::VarDef) -> R<()> {
         let mods: Vec<ast::TypeModifier> = v.local_type.modifiers.modifiers.iter().map(|m| m.node).collect();
-        if mods.contains(&ast::TypeModifier::Static) {
-            return Err(Stop::Unsupported("static local".into()));
-        }
+        let is_static = mods.contains(&ast::TypeModifier::Static);
         let ns = self.frames[self.cur()].ns;
         for d in &v.defs {
             let (name, ty, by_ref) = self.p.declared(&v.local_type, &d.declarator, ns)?;
             if by_ref {
                 return Err(Stop::Unsupported("local reference".into()));
+            }
+            if is_static {
+                // C++ [stmt.dcl]: initialised the first time control passes through the declaration, the object lives
+                // until the end of the evaluation; the name is bound to that object on every later execution
+                let key = d as *const ast::InitDeclarator as usize;
+                let slot = match self.statics.get(&key) {
+                    Some(s) => *s,
+                    None => {
+                        let val = match &d.init {
+                            None => self.p.default_value(&ty),
+                            Some(i) => self.initializer(&ty, i)?,
+                        };
+                        self.frames[0].slots.push(Slot::Own(ty.clone(), val));
+                        let s = self.frames[0].slots.len() - 1;
+                        self.statics.insert(key, s);
+                        s
+                    }
+                };
+                let f = self.cur();
+                self.frames[f].slots.push(Slot::Ref(ty, Place { root: Root::Local(0, slot), path: Vec::new() }));
+                let idx = self.frames[f].slots.len() - 1;
+                if self.frames[f].scopes.is_empty() {
+                    self.frames[f].scopes.push(HashMap::new());
+                }
+                self.frames[f].scopes.last_mut().unwrap().insert(name, idx);
+                continue;
             }
             let val = match &d.init {
                 None => self.p.default_value(&ty),
